@@ -23,6 +23,7 @@ class Ctx:
         self.unit, self.case, self.tier = unit, case, tier
         self.state = State()
         self.interp = Interp(LIB, summaries=dict(unit.summaries), loop_hints=dict(unit.loop_hints))
+        self.interp.loop_opts = dict(getattr(unit, "loop_opts", None) or {})
         self.ghost = {}
 
     # symbols
@@ -111,6 +112,7 @@ class Unit:
     prop = None
     summaries = {}         # callee contracts used: 'module.qualname' -> callable
     loop_hints = {}
+    loop_opts = {}         # choices between equivalent closed forms of the loop rule (see loops._summarise_array)
     timeout = 10
     solver_opts = None
 
@@ -270,6 +272,7 @@ def run_unit(unit, case, tier="quick"):
         excfree = ObResult(f"{uname}:exc-free")
         nret = 0
         engine_limited = False
+        specified_raises = []      # raising paths whose exception is the specified behaviour (unit.raises proved)
         for pi, out in enumerate(outcomes):
             assum = out.state.all_assumptions()
             ptag = f"path{pi}"
@@ -288,6 +291,8 @@ def run_unit(unit, case, tier="quick"):
                     v.reason = "engine limit (no library contract): " + v.reason
                     engine_limited = True
                 excfree.add(v, ptag)
+                if allowed is not None and v.status == solve.PROVED:
+                    specified_raises.append(out)
                 continue
             nret += 1
             excfree.add(solve.Verdict(solve.PROVED, "engine", 0, reason="returns"), ptag)
@@ -313,12 +318,12 @@ def run_unit(unit, case, tier="quick"):
         ncov = 0
         only_raise = bool(getattr(unit, "may_only_raise", lambda c: False)(case))
         for out in outcomes:
-            if out.kind == "return" or only_raise:
+            if out.kind == "return" or only_raise or out in specified_raises:
                 r, _ = solve.satisfiable(out.state.all_assumptions(), timeout_s=5)
                 if r != "unsat":
                     ncov += 1
         cover.add(solve.Verdict(solve.PROVED if ncov > 0 else (solve.UNDECIDED if engine_limited else solve.REFUTED), "z3-5.1", 0,
-                                reason=f"{ncov} feasible returning paths" + (" (a path stopped at an engine limit)" if engine_limited else "")))
+                                reason=f"{ncov} feasible returning (or specified raising) paths" + (" (a path stopped at an engine limit)" if engine_limited else "")))
         res["covered_paths"] = ncov
         # side obligations (safety)
         safety = ObResult(f"{uname}:safety")
